@@ -223,11 +223,53 @@ def scen_announce_under_lock(ctx):
     return bad
 
 
+def scen_clear_inside_is_set(ctx):
+    """is_set() / wait() test the flag in two steps (take the token, put it back); a clear() that comes in between must
+    wait for them (the condition's lock): afterwards the event is clear"""
+    bad = []
+    for reader in ('is_set', 'wait'):
+        ev = ctx.Event()
+        ev.set()
+        real = ev._flag
+        in_gap = threading.Event()
+        st = {'first': True}
+
+        class Gap:
+            _semlock = real._semlock
+
+            def acquire(self, *a):
+                r = real.acquire(*a)
+                if r and st['first'] and threading.current_thread().name == 'reader':
+                    st['first'] = False
+                    in_gap.set()
+                    time.sleep(0.3)         # the reader sits between its two steps
+                return r
+
+            def release(self):
+                return real.release()
+
+            def get_value(self):
+                return real.get_value()
+        ev._flag = Gap()
+        t = threading.Thread(target=(ev.is_set if reader == 'is_set' else lambda: ev.wait(1)), name='reader', daemon=True)
+        t.start()
+        if not in_gap.wait(5):
+            bad.append('%s: the reader never took the flag token' % reader)
+            continue
+        ev.clear()
+        t.join(5)
+        ev._flag = real
+        if ev.is_set():
+            bad.append('clear() returned while %s() was between its two steps on the flag; afterwards the event is still '
+                       'set -- the clear was lost' % reader)
+    return bad
+
+
 def main():
     data = json.load(open(sys.argv[1]))
     print('replay of %s / %s' % (data['function'], data['obligation']))
     ctx = billiard.get_context()
-    bad = scen_event(ctx) + scen_condition(ctx) + scen_timeouts_inside_notify(ctx) + scen_announce_under_lock(ctx)
+    bad = scen_event(ctx) + scen_condition(ctx) + scen_timeouts_inside_notify(ctx) + scen_announce_under_lock(ctx) + scen_clear_inside_is_set(ctx)
     for b in bad[:8]:
         print('  violation on real code: ' + b)
     print('REPRODUCED on real code' if bad else 'not reproduced')
